@@ -445,7 +445,7 @@ func c15genCase(r *rand.Rand, thorough bool) (string, string) {
 	if thorough && r.Intn(4) == 0 {
 		nEv = 150 + r.Intn(250)
 	}
-	mode := r.Intn(5)
+	mode := []int{0, 0, 0, 1, 1, 1, 2, 2, 2, 3, 3, 3, 4}[r.Intn(13)]
 	modeName := []string{"sec", "dyadic", "frac", "refillunit", "unsorted"}[mode]
 	// gc passes (at one instant) in every third ordered case
 	gcIdx := -1
@@ -584,7 +584,7 @@ func c15genCase(r *rand.Rand, thorough bool) (string, string) {
 func c15gen(r *rand.Rand, thorough bool, emit func(c, cat string)) {
 	n := 700
 	if thorough {
-		n = 12000
+		n = 6000
 	}
 	for i := 0; i < n; i++ {
 		cs, cat := c15genCase(r, thorough)
